@@ -114,6 +114,13 @@ def fan_in(n_in=3, pol="ROUND_ROBIN", n=2, until=12, cap=1):
     return {"nodes": nodes, "edges": edges, "until": until, "family": "fan_in", "tag": "fan_in(%d,%s,c%d)" % (n_in, _p(pol), cap)}
 
 
+def sink_fan_in(n_in=2, n=3, until=12, cap=1, ek="buf0"):
+    """a sink with several in-edges; by default the sources deliver in the same instants"""
+    nodes = [src("S%d" % i, n=n, iat=[1, 2] if i else [1, 0.5]) for i in range(n_in)] + [sink("K")]
+    edges = [EDGE_KINDS[ek]("I%d" % i, "S%d" % i, "K", cap) for i in range(n_in)]
+    return {"nodes": nodes, "edges": edges, "until": until, "family": "sink_fan_in", "tag": "sink_fan_in(%d,%s,c%d)" % (n_in, ek, cap)}
+
+
 def comb_split(recipe=(1, 1), blocking=True, out_pol="FIRST_AVAILABLE", sinks=1, n_pal=2, n_item=3, until=16, cap=2, order="nodes_first",
                sblocking=True, pal_iat=None, item_iat=None):
     recipe = list(recipe)
@@ -217,6 +224,11 @@ def fans(tier):
         for node in ("source", "machine"):
             out.append(fan(2, "FIRST_AVAILABLE", node, True, order=order, cpd=[2, 1], n=5, until=14))
             out.append(fan(3, "FIRST_AVAILABLE", node, True, order=order, n=5, until=14))
+    # sinks with several in-edges (arrivals in the same instant by default)
+    out.append(sink_fan_in(2))
+    out.append(sink_fan_in(3))
+    out.append(sink_fan_in(2, ek="bufF", cap=2))
+    out.append(sink_fan_in(2, ek="fleet", until=16))
     return out
 
 
@@ -304,6 +316,10 @@ def combiners(tier):
     out.append(comb_split((1, 1), order="reversed"))
     out.append(comb_split((1, 2), pal_iat=[3, 1], item_iat=[0.5, 1]))
     out.append(comb_split((1, 1, 1), pal_iat=[0.5, 1], item_iat=[2, 1], until=20))
+    # three ingredient reservations outstanding for one pallet (a granted / waiting / granted pattern exists)
+    out.append(comb_split((1, 2, 1)))
+    out.append(comb_split((1, 1, 1, 1), n_item=2))
+    out.append(comb_split((1, 1, 2), pal_iat=[0.5, 1], item_iat=[1, 2], until=20))
     for pol in ("ROUND_ROBIN", "FIRST_AVAILABLE", 1, ("call",), "RANDOM"):
         for sb in (False, True):
             out.append(comb_split_slow((1, 2), out_pol=pol, sblocking=sb))
@@ -342,6 +358,11 @@ def fleet_dense(tier):
               "edges": [edge("fleet", "F", "S", "M", cap=cap, delay=delay, transit=transit), buf("O", "M", "K", cap=2)], "until": 14,
               "family": "fleet_dense", "tag": "fleet_dense_m(c%d,d%s,t%s)" % (cap, delay, transit)}
         out.append(c2)
+    # a slow consumer behind the fleet: delivered items wait in the fleet when the run ends
+    for until in (10.5, 21.3):
+        out.append({"nodes": [src("S", n=6, iat=[1, 2]), mach("M", pd=[6, 5]), sink("K")],
+                    "edges": [edge("fleet", "F", "S", "M", cap=2, delay=3, transit=0.5), buf("O", "M", "K", cap=1)], "until": until,
+                    "family": "fleet_dense", "tag": "fleet_slow_consumer(T%s)" % until})
     return out
 
 
@@ -377,14 +398,31 @@ def draining(tier):
             out.append(line(e1, e2, sb=sb, mb=mb, until=60, drains=True))
     for c in (diamond(until=60), diamond(in_pol="ROUND_ROBIN", out_pol="ROUND_ROBIN", until=60), series(until=60), series(wc1=2, b2=False, until=60),
               comb_split((1, 1), until=60, n_pal=2, n_item=2), comb_split((1, 2), sinks=2, out_pol="ROUND_ROBIN", until=60, n_pal=2, n_item=4),
-              pallet_split(until=60), fan(3, "ROUND_ROBIN", "machine", True, until=60)):
+              pallet_split(until=60), fan(3, "ROUND_ROBIN", "machine", True, until=60), fan(3, "FIRST_AVAILABLE", "machine", True, until=60),
+              fan_in(3, "FIRST_AVAILABLE", until=60), fan_in(3, "ROUND_ROBIN", until=60), fan_in(2, "FIRST_AVAILABLE", n=3, until=60),
+              sink_fan_in(2, until=60), sink_fan_in(3, until=60)):
         c["drains"] = True
         c["tag"] += "+drains"
         out.append(c)
     return out
 
 
-FAMILIES = {"fleet_dense": fleet_dense, "nonblocking_fleet": nonblocking_fleet, "draining": draining, "splitters": splitters, "lines": core_lines, "congestion": congestion, "diamonds": diamonds, "fans": fans, "combiners": combiners,
+def discards(tier):
+    """non-blocking nodes with an explicit out-edge policy in front of a slow consumer: several items are dropped in one run"""
+    out = []
+    for pol in (0, "ROUND_ROBIN", ("call",), "RANDOM", "FIRST_AVAILABLE"):
+        c = {"nodes": [src("S", n=6, blocking=False, iat=[1, 0.5], pol=pol), mach("M", pd=[3, 4]), sink("K")],
+             "edges": [buf("E1", "S", "M", cap=1), buf("E2", "M", "K", cap=1)], "until": 14, "family": "discards",
+             "tag": "discards(source,%s)" % _p(pol)}
+        out.append(c)
+        c = {"nodes": [src("S", n=6, iat=[1, 0.5]), mach("M1", blocking=False, out_pol=pol, pd=[0.5, 0]), mach("M2", pd=[3, 4]), sink("K")],
+             "edges": [buf("A", "S", "M1", cap=1), buf("B", "M1", "M2", cap=1), buf("C", "M2", "K", cap=1)], "until": 14,
+             "family": "discards", "tag": "discards(machine,%s)" % _p(pol)}
+        out.append(c)
+    return out
+
+
+FAMILIES = {"discards": discards, "fleet_dense": fleet_dense, "nonblocking_fleet": nonblocking_fleet, "draining": draining, "splitters": splitters, "lines": core_lines, "congestion": congestion, "diamonds": diamonds, "fans": fans, "combiners": combiners,
             "conveyors": conveyor_lines}
 
 
@@ -475,6 +513,9 @@ def c20_extra(tier):
         c["tag"] = "comb_split(ingredient edge %s)" % ek
         out.append(c)
     c = comb_split((1,)); c["tag"] = "comb_split(single in-edge)"; out.append(c)
+    # wiring applied twice (connect(..., reconnect=True) with the same endpoints) is still the same valid model
+    for c in (line("bufF", "buf0"), diamond(), diamond(in_pol=1, out_pol=1), comb_split((1, 1)), fan(3, "ROUND_ROBIN", "machine", True)):
+        c["rewire"] = True; c["tag"] += "+rewired"; out.append(c)
     for c in out:
         c["family"] = "c20_extra"
     return out
